@@ -159,7 +159,11 @@ def audit_capture(cap, complete=True):
                 continue
             h = herds[cur]
             opts.append((rnd, ev, cur))
-            audit_meat_milk(fails, rnd, ev["ty"], ev, h["animals"], stats)
+            p = dict(ev)
+            if cap.get("row"):
+                # yields of the country row / scenario option, NOT what the code stored in its constants
+                p.update(cap["row"])
+            audit_meat_milk(fails, rnd, ev["ty"], p, h["animals"], stats)
             if ev["ty"] == "to_humans" and all(x == 0 for x in ev["feed"]):
                 stats["zero_charge_rounds"] = stats.get("zero_charge_rounds", 0) + 1
                 if any(x != 0 for x in h["feed_used"]):
